@@ -117,26 +117,26 @@ def proof_part(rep, prop):
     return ok
 
 
-def _run_vsrun(info, tier, seed, systems, out, timeout):
+def _run_vsrun(info, tier, seed, systems, out, timeout, maxsec=0):
     shutil.rmtree(out, ignore_errors=True)
     os.makedirs(out)
     t = time.time()
     try:
         p = common.sh([os.path.join(info["bin"], "vsrun"), "-mode", tier, "-seed", str(seed), "-out", out,
-                       "-systems", ",".join(systems)], timeout=timeout)
+                       "-systems", ",".join(systems), "-maxsec", str(maxsec)], timeout=timeout)
         rc, err = p.returncode, p.stderr
     except subprocess.TimeoutExpired:
         rc, err = -1, "timeout"
     return rc, err, round(time.time() - t, 1)
 
 
-def sched_part(rep, info, systems, prop, tier=None, search_only=False, timeout=3000):
+def sched_part(rep, info, systems, prop, tier=None, search_only=False, timeout=3000, maxsec=0):
     """T5: runs the rewritten emitted code on the virtual scheduler (random schedules, DFS, sleep-set DFS),
     checks the observable clauses on every execution (search) and replays every step log on the Lean
     LTS (correspondence)."""
     tier = tier or rep.tier
     out = os.path.join(info["work"] + ".run", "%s-%s-%d" % (prop, tier, rep.seed))
-    rc, err, secs = _run_vsrun(info, tier, rep.seed, systems, out, timeout)
+    rc, err, secs = _run_vsrun(info, tier, rep.seed, systems, out, timeout, maxsec)
     if rc != 0 and not os.path.exists(os.path.join(out, "summary.json")):
         if search_only:
             return 0
@@ -218,7 +218,7 @@ def sched_part(rep, info, systems, prop, tier=None, search_only=False, timeout=3
     return found
 
 
-def race_part(rep, info, systems, prop, tier=None, timeout=1500):
+def race_part(rep, info, systems, prop, tier=None, timeout=1500, maxsec=0):
     """Real runtime: the unrewritten emitted code under the race detector, same scenarios, many
     repetitions with GOMAXPROCS varied; outcome checked against the same observable clauses."""
     tier = tier or rep.tier
@@ -230,7 +230,7 @@ def race_part(rep, info, systems, prop, tier=None, timeout=1500):
     t = time.time()
     try:
         p = common.sh([os.path.join(info["bin"], "racerun"), "-mode", tier, "-seed", str(rep.seed), "-out", out,
-                       "-systems", ",".join(systems)], env=env, timeout=timeout)
+                       "-systems", ",".join(systems), "-maxsec", str(maxsec)], env=env, timeout=timeout)
         rc, err = p.returncode, p.stderr
     except subprocess.TimeoutExpired:
         rc, err = -1, "timeout after %ds" % timeout
@@ -283,9 +283,9 @@ def run(rep, prop, systems):
     if broken and not found and rep.tier == "quick":
         # something no longer checks and no failing schedule was seen: search harder (thorough pool)
         rep.notes.append("search: thorough scheduler exploration and race stress after a broken proof / fact / correspondence")
-        found += sched_part(rep, info, systems, prop, tier="thorough", search_only=True, timeout=420)
+        found += sched_part(rep, info, systems, prop, tier="thorough", search_only=True, timeout=400, maxsec=120)
         if not found:
-            found += race_part(rep, info, systems, prop, tier="thorough", timeout=420)
+            found += race_part(rep, info, systems, prop, tier="thorough", timeout=400, maxsec=90)
     return ok_proof
 
 
